@@ -797,7 +797,10 @@ func turnRule(c *Ctx, r *Report, rule string) {
 				}
 				ok = true
 				for _, ts := range trueStores {
-					if instrReaches(fs, ts) && instrReaches(ts, ci) {
+					// a set of the flag between the clearing store and the answer: after fs, and reaching the
+					// answer without fs being executed again (fs dominates the answer; a way round a loop that
+					// passes fs again clears the flag again - e.g. when `break Loop` became a loop-scoped flag)
+					if instrReaches(fs, ts) && reachesWithoutRedoing(ts, ci, fs) {
 						ok = false
 					}
 				}
